@@ -130,7 +130,8 @@ def step (s : St) (ts : List String) : St × String :=
       | none => (s, "bad-op")
     | "note" :: _ => (s, "ok")
     -- the scheduler bookkeeping model replayed on the observed VM runs and messages
-    | "sched" :: rest => (s, C05Sched.schedOp rest)
+    | "sched" :: rest =>
+      (s, C05Sched.schedOp (s.groups.map fun g => if g.tid then SchedTx.GKind.tid g.code else SchedTx.GKind.vm) rest)
     | [op, b] =>
       -- `sig`: resumable_verify_with_signal with no signal ever sent = the one-shot run (Props/C05
       -- signal_budget_ge_eq_unlimited / the empty pause schedule)
